@@ -41,6 +41,22 @@ impl Idle {
     }
 }
 
+impl Idle {
+    /// Like `settle` but does not clear a pending idle notification first (for use inside a
+    /// poll_fn that is re-created at every poll).
+    pub async fn settle_nowait(&self) {
+        std::future::poll_fn(|cx| {
+            if self.flag.swap(false, SeqCst) {
+                Poll::Ready(())
+            } else {
+                *self.waker.lock().unwrap() = Some(cx.waker().clone());
+                Poll::Pending
+            }
+        })
+        .await
+    }
+}
+
 struct Uninstall;
 impl Drop for Uninstall {
     fn drop(&mut self) {
